@@ -197,6 +197,23 @@ func definitelyNonNil(v ssa.Value, depth int, seen map[ssa.Value]bool) bool {
 		case "errors.New", "fmt.Errorf":
 			return true
 		}
+		// a repo function all of whose returns are non-nil (unexpectedMessageError, sendAlert with a
+		// non-zero alert, ...)
+		if sc := x.Call.StaticCallee(); sc != nil && inRepo(sc) && sc.Blocks != nil && sc.Signature.Results().Len() == 1 && depth < 4 {
+			all := true
+			n := 0
+			for _, b := range sc.Blocks {
+				ret, ok := b.Instrs[len(b.Instrs)-1].(*ssa.Return)
+				if !ok {
+					continue
+				}
+				n++
+				if !definitelyNonNil(ret.Results[0], depth+1, map[ssa.Value]bool{}) {
+					all = false
+				}
+			}
+			return all && n > 0
+		}
 		return false
 	case *ssa.Phi:
 		for _, e := range x.Edges {
